@@ -251,6 +251,58 @@ def _kernels():
     reg('rc', ['f'], lambda I: mh.rc(g(I, 'f')))
     reg('slic', ['rgb'], lambda I: mh.segmentation.slic(g(I, 'rgb'), max(4, I.size // 4)))
     reg('euler', ['b'], lambda I: mh.euler(g(I, 'b')))
+    # ---- round 4: every public function of harness/catalog.py appears in the mixes (the `apicover` case checks it by
+    # profiling one call of every kernel): the remaining morphology / labeled / feature / resize / colour / threshold API
+    import mahotas.colors, mahotas.edge, mahotas.resize, mahotas.stretch, mahotas.morph, mahotas.bbox   # noqa: F401
+    import mahotas.features.shape, mahotas.features.moments, mahotas.features.tas, mahotas.features.lbp  # noqa: F401
+    # `mahotas.stretch`, `mahotas.features.tas`, `mahotas.features.lbp` are shadowed by the functions of the same name
+    M_stretch, M_tas, M_lbp = (sys.modules[m_] for m_ in ('mahotas.stretch', 'mahotas.features.tas', 'mahotas.features.lbp'))
+    reg('croptobbox', ['b8'], lambda I: mh.croptobbox(g(I, 'b8')))
+    reg('cdilate', ['b'], lambda I: mh.cdilate(g(I, 'b') & (g(I, 'f') > 150), g(I, 'b'), n=2))
+    reg('cerode', ['b'], lambda I: mh.cerode(g(I, 'b') | (g(I, 'f') > 90), g(I, 'b')))
+    reg('locmin', ['f'], lambda I: mh.locmin(g(I, 'f')))
+    reg('subm', ['f'], lambda I: mh.morph.subm(g(I, 'f'), g(I, 'f')[::-1]))
+    reg('tophat_open', ['f'], lambda I: mh.morph.tophat_open(g(I, 'f')))
+    reg('tophat_close', ['f'], lambda I: mh.morph.tophat_close(g(I, 'f')))
+    reg('disk', [], lambda I: mh.disk(2 + I.size % 5))
+    reg('get_structuring_elem', ['f'], lambda I: mh.get_structuring_elem(g(I, 'f'), 8))
+    reg('laplacian_2D', ['fl'], lambda I: mh.laplacian_2D(g(I, 'fl')))
+    reg('wavelet_center', ['fl'], lambda I: mh.wavelet_center(g(I, 'fl')))
+    reg('wavelet_decenter', ['fl'], lambda I: mh.wavelet_decenter(mh.wavelet_center(g(I, 'fl')), g(I, 'fl').shape))
+    reg('dog', ['fl'], lambda I: mh.edge.dog(g(I, 'fl')))
+    reg('sobel', ['f'], lambda I: mh.edge.sobel(g(I, 'f')))
+    reg('labeled_min', ['f', 'lab'], lambda I: mh.labeled.labeled_min(g(I, 'f'), g(I, 'lab')))
+    reg('filter_labeled', ['lab'], lambda I: mh.labeled.filter_labeled(g(I, 'lab'), min_size=3, remove_bordering=True))
+    reg('remove_regions_where', ['lab'], lambda I: mh.labeled.remove_regions_where(
+        g(I, 'lab'), mh.labeled.labeled_size(g(I, 'lab')) < 6))
+    reg('gvoronoi', ['lab'], lambda I: mh.segmentation.gvoronoi(g(I, 'lab')))
+    reg('polygon_line', [], lambda I: (lambda c: (mh.polygon.line((0, 1), (I.size - 1, I.size // 2), c, 2), c)[1])(
+        np.zeros((I.size, I.size), np.uint8)))
+    reg('moments', ['f'], lambda I: mh.features.moments.moments(g(I, 'f'), 1, 2))
+    reg('eccentricity', ['b'], lambda I: mh.features.shape.eccentricity(g(I, 'b')))
+    reg('ellipse_axes', ['b'], lambda I: mh.features.shape.ellipse_axes(g(I, 'b')))
+    reg('roundness', ['b'], lambda I: mh.features.shape.roundness(g(I, 'b')))
+    reg('count_binary1s', ['f'], lambda I: M_lbp.count_binary1s(g(I, 'f')))
+    reg('surf_dense', ['f'], lambda I: mh.features.surf.dense(g(I, 'f'), max(4, I.size // 3)))
+    reg('tas', ['f'], lambda I: M_tas.tas(g(I, 'f')))
+    reg('pftas', ['f'], lambda I: M_tas.pftas(g(I, 'f')))
+    reg('imresize', ['fl'], lambda I: mh.resize.imresize(g(I, 'fl'), 1.5))
+    reg('resize_to', ['fl'], lambda I: mh.resize.resize_to(g(I, 'fl'), (I.size + 3, I.size - 2)))
+    reg('resize_rgb_to', ['rgb'], lambda I: mh.resize.resize_rgb_to(g(I, 'rgb'), (I.size + 3, I.size - 2)))
+    reg('bernsen', ['f'], lambda I: mh.thresholding.bernsen(g(I, 'f'), 2, 12))
+    reg('gbernsen', ['f', 'bc3'], lambda I: mh.thresholding.gbernsen(g(I, 'f'), g(I, 'bc3').astype(bool), 12, 128))
+    reg('soft_threshold', ['fl'], lambda I: mh.thresholding.soft_threshold(g(I, 'fl'), 60.))
+    reg('spline_filter1d', ['fl'], lambda I: mh.interpolate.spline_filter1d(g(I, 'fl'), order=3, axis=1))
+    reg('stretch', ['fl'], lambda I: M_stretch.stretch(g(I, 'fl')))
+    reg('stretch_rgb', ['rgb'], lambda I: M_stretch.stretch_rgb(g(I, 'rgb')))
+    reg('as_rgb', ['f'], lambda I: M_stretch.as_rgb(g(I, 'f'), g(I, 'f').T, None))
+    reg('overlay', ['f', 'b'], lambda I: M_stretch.overlay(g(I, 'f'), g(I, 'b')))
+    reg('rgb2gray', ['rgb'], lambda I: mh.colors.rgb2gray(g(I, 'rgb')))
+    reg('rgb2sepia', ['rgb'], lambda I: mh.colors.rgb2sepia(g(I, 'rgb')))
+    reg('rgb2xyz', ['rgb'], lambda I: mh.colors.rgb2xyz(g(I, 'rgb')))
+    reg('rgb2lab', ['rgb'], lambda I: mh.colors.rgb2lab(g(I, 'rgb')))
+    reg('xyz2rgb', ['rgb'], lambda I: mh.colors.xyz2rgb(mh.colors.rgb2xyz(g(I, 'rgb'))))
+    reg('xyz2lab', ['rgb'], lambda I: mh.colors.xyz2lab(mh.colors.rgb2xyz(g(I, 'rgb'))))
     # direct native entry points on a shared input (reference-count probes: cheap, many calls per second)
     reg('native_center_of_mass', ['fl'], lambda I: mahotas._center_of_mass.center_of_mass(g(I, 'fl'), None))
     reg('native_convexhull', ['b'], lambda I: mahotas._convex.convexhull(g(I, 'b')))
@@ -260,6 +312,11 @@ def _kernels():
     reg('raise_native_convolve_mode', ['fl', 'w3'], lambda I: mahotas._convolve.convolve(
         g(I, 'fl'), g(I, 'w3'), np.empty_like(g(I, 'fl')), 77))
     reg('raise_native_spline_order', ['fl'], lambda I: mahotas._interpolate.spline_filter1d(g(I, 'fl').copy(), 7, 0))
+    # (round 4) the PUBLIC calls that raise from inside a released region: order 1 passes the Python check and is rejected
+    # by `init_poles` inside `spline_filter1d<T>` (after `gil_release`); and the second in-kernel throw of that kernel
+    reg('raise_public_spline1d_order1', ['fl'], lambda I: mh.interpolate.spline_filter1d(g(I, 'fl'), order=1))
+    reg('raise_public_spline_order1', ['fl'], lambda I: mh.interpolate.spline_filter(g(I, 'fl'), order=1))
+    reg('raise_native_spline_axis', ['fl'], lambda I: mahotas._interpolate.spline_filter1d(g(I, 'fl').copy(), 3, 5))
     # ... in the Python wrappers / native validation (lock held)
     reg('raise_wrapper_spline_order', ['fl'], lambda I: mh.interpolate.spline_filter1d(g(I, 'fl'), order=7))
     reg('raise_wrapper_erode_ndim', ['b'], lambda I: mh.erode(g(I, 'b'), np.ones((3, 3, 3), bool)))
@@ -279,8 +336,9 @@ def _fill_polygon(mh, np, I):
 
 
 RAISING = ['raise_cooccurence_negative', 'raise_native_convolve_mode', 'raise_native_spline_order',
+           'raise_public_spline1d_order1', 'raise_public_spline_order1', 'raise_native_spline_axis',
            'raise_wrapper_spline_order', 'raise_wrapper_erode_ndim', 'raise_wrapper_convolve_mode', 'raise_wrapper_thin_ndim', 'raise_native_type']
-IN_KERNEL_RAISING = RAISING[:3]
+IN_KERNEL_RAISING = RAISING[:6]
 NATIVE_PROBES = ['native_center_of_mass', 'native_convexhull']
 # kernels drawn for random mixes (names only: the registry itself lives in the child)
 REGULAR = ['erode', 'erode_u8', 'erode_shared_bc', 'locmax_shared_bc', 'regmin_shared_bc', 'median_shared_bc', 'dilate', 'dilate_b', 'open', 'close', 'cwatershed', 'cwatershed_lines', 'hitmiss',
@@ -293,12 +351,21 @@ REGULAR = ['erode', 'erode_u8', 'erode_shared_bc', 'locmax_shared_bc', 'regmin_s
            'surf_integral', 'surf_interest_points', 'surf_interest_points_integral', 'surf_descriptors', 'shift', 'zoom', 'spline_filter',
            'center_of_mass', 'center_of_mass_labels', 'convexhull', 'fill_convexhull', 'fill_polygon', 'fullhistogram',
            'otsu', 'rc', 'slic', 'euler']
+# round 4: the rest of the public API (see `_kernels`), so that every function of harness/catalog.py is in some mix
+REGULAR4 = ['croptobbox', 'cdilate', 'cerode', 'locmin', 'subm', 'tophat_open', 'tophat_close', 'disk', 'get_structuring_elem',
+            'laplacian_2D', 'wavelet_center', 'wavelet_decenter', 'dog', 'sobel', 'labeled_min', 'filter_labeled',
+            'remove_regions_where', 'gvoronoi', 'polygon_line', 'moments', 'eccentricity', 'ellipse_axes', 'roundness',
+            'count_binary1s', 'surf_dense', 'tas', 'pftas', 'imresize', 'resize_to', 'resize_rgb_to', 'bernsen', 'gbernsen',
+            'soft_threshold', 'stretch', 'stretch_rgb', 'as_rgb', 'overlay', 'rgb2gray', 'rgb2sepia', 'rgb2xyz', 'rgb2lab',
+            'xyz2rgb', 'xyz2lab', 'spline_filter1d']
+REGULAR = REGULAR + REGULAR4
 FAMILY = {}
 for _k in REGULAR + RAISING + NATIVE_PROBES:
     FAMILY[_k] = ('raising' if _k.startswith('raise_') else
                   'morphology' if _k in ('erode', 'erode_u8', 'erode_shared_bc', 'locmax_shared_bc', 'regmin_shared_bc', 'median_shared_bc', 'dilate', 'dilate_b', 'open', 'close', 'hitmiss',
                                          'majority_filter', 'locmax', 'regmax', 'regmin', 'close_holes', 'thin',
-                                         'bwperim', 'euler') else
+                                         'bwperim', 'euler', 'cdilate', 'cerode', 'locmin', 'subm', 'tophat_open',
+                                         'tophat_close', 'disk', 'get_structuring_elem') else
                   'watershed' if _k.startswith('cwatershed') else
                   'distance' if _k == 'distance' else
                   'label' if _k in ('label', 'borders', 'border', 'labeled_sum', 'labeled_max', 'labeled_size', 'bbox',
@@ -308,9 +375,13 @@ for _k in REGULAR + RAISING + NATIVE_PROBES:
                                       'gaussian_filter_d01', 'gaussian_filter1d_d2', 'median_filter',
                                       'rank_filter', 'mean_filter', 'template_match', 'find', 'daubechies',
                                       'idaubechies', 'haar', 'ihaar') else
-                  'texture' if _k in ('haralick', 'cooccurence', 'lbp', 'zernike_moments') else
+                  'texture' if _k in ('haralick', 'cooccurence', 'lbp', 'zernike_moments', 'tas', 'pftas', 'count_binary1s',
+                                      'moments', 'eccentricity', 'ellipse_axes', 'roundness') else
+                  'colour' if _k in ('rgb2gray', 'rgb2sepia', 'rgb2xyz', 'rgb2lab', 'xyz2rgb', 'xyz2lab', 'stretch',
+                                     'stretch_rgb', 'as_rgb', 'overlay') else
+                  'threshold' if _k in ('bernsen', 'gbernsen', 'soft_threshold') else
                   'surf' if _k.startswith('surf') else
-                  'interpolation' if _k in ('shift', 'zoom', 'spline_filter') else 'measure')
+                  'interpolation' if _k in ('shift', 'zoom', 'spline_filter', 'spline_filter1d', 'imresize', 'resize_to', 'resize_rgb_to') else 'measure')
 
 # gil_release sites whose wrappers are built inside the released region  ->  kernels that exercise them
 SITE_KERNELS = {'convexhull': ['convexhull', 'native_convexhull', 'fill_convexhull'],
@@ -549,6 +620,9 @@ def run_stress(case):
                 size=('<=16' if max(c[2] for c in calls) <= 16 else '<=48' if max(c[2] for c in calls) <= 48 else '<=96'),
                 families='+'.join(fams) if len(fams) <= 3 else f'{len(fams)}-families',
                 first_use=bool(case.get('reset_perimeter')))
+    # per-function counts for the evidence `distribution`: `fn:<kernel>=<role>` (cases, not calls)
+    for c in calls:
+        tags['fn:' + c[0]] = ('raising' if c[0].startswith('raise_') else 'regular') + ('/shared' if shared else '/distinct')
     return dict(findings=findings, nontrivial=bool(started[0] >= 2 and nonconst),
                 sig=json.dumps([case['calls'], nthreads, shared, case.get('switch')]), tags=tags,
                 n=nthreads * reps * rounds * len(calls), kernels=sorted({c[0] for c in calls}),
@@ -835,6 +909,111 @@ def _eval_sites(case):
                           helper_wrapper_sites=len(hw)))
 
 
+def _resolve_public(name):
+    import importlib
+    parts = name.split('.')
+    best = None
+    for i in range(len(parts), 0, -1):
+        try:
+            o = importlib.import_module('.'.join(parts[:i]))
+        except Exception:
+            continue
+        try:
+            for p_ in parts[i:]:
+                o = getattr(o, p_)
+        except AttributeError:
+            continue
+        if hasattr(o, '__code__'):
+            return o
+        if best is None:
+            best = o
+    # a module shadowing the function of the same name (`mahotas.convolve`): the function lives inside it
+    if best is not None and hasattr(best, parts[-1]) and hasattr(getattr(best, parts[-1]), '__code__'):
+        return getattr(best, parts[-1])
+    return None
+
+
+def _independent_static_scan(repo):
+    """an independent (regex, not the translator's parser) scan of the C++ sources: `gil_release` declarations and
+    objects with static storage duration that are not `const`; returns ({file: count}, [(file, line, text)])"""
+    import re
+    gil, statics_ = {}, []
+    for p_ in sorted((repo / 'mahotas').rglob('*')):
+        if p_.suffix not in ('.cpp', '.h', '.hpp'):
+            continue
+        txt = p_.read_text(errors='replace')
+        txt_nc = re.sub(r'/\*.*?\*/', lambda m: '\n' * m.group(0).count('\n'), txt, flags=re.S)
+        lines = [re.sub(r'//.*', '', l) for l in txt_nc.split('\n')]
+        n = sum(1 for l in lines if re.search(r'\bgil_release\s+\w+\s*;', l))
+        if n:
+            gil[str(p_.relative_to(repo))] = n
+        for ln, l in enumerate(lines, 1):
+            if re.match(r'\s*static\s+(?!const\b|inline\b)[\w:<>\s\*&]+?\b(\w+)\s*(\[[^\]]*\])?\s*(=|;)', l) and '(' not in l.split('=')[0]:
+                statics_.append((str(p_.relative_to(repo)), ln, l.strip()))
+    return gil, statics_
+
+
+def _eval_apicover(case):
+    """coverage of the generators, computed from what the kernels really call: (1) every public function of
+    harness/catalog.py is entered by at least one kernel of the thread mixes (one profiled call of every kernel);
+    (2) the translator's tables behind `Generated/Statics.lean` cover every `gil_release` site and every non-const
+    function-local `static` an independent scan of the sources finds"""
+    from harness import catalog
+    from translator import statics
+    findings = []
+    cat = {n: _resolve_public(n) for n in catalog.ENTRIES}
+    codes = {o.__code__: n for n, o in cat.items() if o is not None}
+    K = _kernels()
+    seen, cur = {}, [None]
+
+    def prof(frame, event, arg):
+        if event == 'call' and frame.f_code in codes:
+            seen.setdefault(codes[frame.f_code], set()).add(cur[0])
+
+    for name in REGULAR:
+        fn = K[name][0]
+        cur[0] = name
+        I = Inputs(7, 24, False)
+        sys.setprofile(prof)
+        try:
+            fn(I)
+        except Exception:
+            pass
+        finally:
+            sys.setprofile(None)
+    for n in sorted(cat):
+        if cat[n] is None:
+            findings.append(dict(kind='model', key=f'coverage:{n}:unresolved-catalogue-name', detail={}))
+        elif n not in seen:
+            findings.append(dict(kind='model', key=f'coverage:{n}:not-in-thread-mix', detail=dict(
+                note='a public function of harness/catalog.py that no kernel of the C12 mixes calls: add a kernel to _kernels()/REGULAR')))
+    # (2) Generated/Statics.lean coverage
+    gil, stat = _independent_static_scan(core.REPO)
+    sites = statics.extract_gil_sites(core.REPO)
+    by_file = {}
+    for s_ in sites:
+        f_ = s_['file'] if not str(s_['file']).startswith(str(core.REPO)) else str(__import__('pathlib').Path(s_['file']).relative_to(core.REPO))
+        by_file[f_] = by_file.get(f_, 0) + 1
+    for f_, n_ in sorted(gil.items()):
+        got = sum(v for k, v in by_file.items() if k.endswith(f_) or f_.endswith(k))
+        if got != n_:
+            findings.append(dict(kind='model', key=f'statics:site-not-extracted:{f_}', detail=dict(scan=n_, translator=got)))
+    try:
+        objs = statics.extract_cpp_objects(core.REPO)
+        names_ = {o.get('name') for o in objs}
+        import re as _re
+        for f_, ln, text in stat:
+            m = _re.search(r'(\w+)\s*(\[[^\]]*\])?\s*(=|;)', text.split('static', 1)[1])
+            if m and m.group(1) not in names_:
+                findings.append(dict(kind='model', key=f'statics:object-not-extracted:{f_}:{m.group(1)}', detail=dict(line=ln, text=text)))
+        nobj = len(objs)
+    except AttributeError:
+        nobj = -1
+    return dict(findings=findings, n=len(REGULAR), nontrivial=False, sig=None,
+                tags=dict(kind='apicover', catalogue=len(cat), covered=len(seen), gil_sites_scan=sum(gil.values()),
+                          gil_sites_translator=len(sites), static_objects_translator=nobj, static_nonconst_scan=len(stat)))
+
+
 def evaluate(cases):
     out = [None] * len(cases)
     stress_idx = [i for i, c in enumerate(cases) if c.get('kind') == 'stress']
@@ -846,6 +1025,8 @@ def evaluate(cases):
             out[i] = _eval_model(c)
         elif c.get('kind') == 'sites':
             out[i] = _eval_sites(c)
+        elif c.get('kind') == 'apicover':
+            out[i] = _eval_apicover(c)
         elif out[i] is None:
             raise core.Infra(f'unknown case kind {c.get("kind")}')
     return out
@@ -889,14 +1070,24 @@ def cases(rng, tier):
         thread_counts = [2, 4, 8, 16, 32]
         nmix, reps = 20, 8
     # every kernel appears at least once per run: partition a shuffled list of all kernels into mixes
-    pool = REGULAR[:]
-    rng.shuffle(pool)
-    cover = [pool[i:i + 8] for i in range(0, len(pool), 8)]
-    for ci, names in enumerate(cover):
-        size = rng.choice([12, 24, 40])
-        out.append(dict(kind='stress', threads=thread_counts[ci % len(thread_counts)], shared=bool(ci % 2), reps=3,
-                        switch=None, reset_perimeter='perimeter' in names,
-                        calls=[[n, rng.randint(0, 10 ** 6), size] for n in names]))
+    # (round 4: two partitions, so that every kernel runs once on SHARED read-only inputs and once on DISTINCT ones)
+    out.append(dict(kind='apicover'))
+    for shared_cover in (False, True):
+        pool = REGULAR[:]
+        rng.shuffle(pool)
+        cover = [pool[i:i + 8] for i in range(0, len(pool), 8)]
+        for ci, names in enumerate(cover):
+            size = rng.choice([12, 24, 40])
+            out.append(dict(kind='stress', threads=thread_counts[ci % len(thread_counts)], shared=shared_cover, reps=3,
+                            switch=None, reset_perimeter='perimeter' in names,
+                            calls=[[n, rng.randint(0, 10 ** 6), size] for n in names]))
+    # (round 4) every call that raises INSIDE a kernel on LARGE inputs, in every tier, nearly alone and threaded: a hand-written
+    # release that is only taken above a size threshold, or an error path that skips the re-acquire, shows only there (the
+    # sequential reference call already dies then: reported as `crash:<kernel>`)
+    for k in IN_KERNEL_RAISING:
+        for size, nt, shared_big in ((64, 2, False), (96, 8, True), (256, 4, False)):
+            out.append(dict(kind='stress', threads=nt, shared=shared_big, reps=2, switch=None, reset_perimeter=False,
+                            calls=[[k, rng.randint(0, 10 ** 6), size]]))
     # the same kernel on inputs of DIFFERENT shapes at the same time: exposes per-call tables or scratch buffers that
     # were made static / module-level (their content depends on the input's shape, e.g. strides, bounding boxes, grey
     # levels), which identical concurrent inputs can never show
